@@ -5,8 +5,35 @@ package node
 //verif:go * drop
 //verif:override (*github.com/pancsta/asyncmachine-go/pkg/node.Supervisor).readyWorkers verifReadyWorkers
 
+import (
+	am "github.com/pancsta/asyncmachine-go/pkg/machine"
+	"github.com/pancsta/asyncmachine-go/pkg/node/states"
+)
+
 func init() {
 	verifRegister("VerifC15Gates", VerifC15Gates)
+}
+
+// verifSupMach is what a gate can ask its event about: the state names and the running transition.
+type verifSupMach struct {
+	am.Api
+	names am.S
+	tx    *am.Transition
+}
+
+func (m *verifSupMach) StateNames() am.S           { return m.names }
+func (m *verifSupMach) Transition() *am.Transition { return m.tx }
+func (m *verifSupMach) Id() string                 { return "sup" }
+
+// verifGateEvent builds the event of a negotiation handler <state><suffix> of a transition that called [called].
+func verifGateEvent(name string, typ am.MutationType, called []int) *am.Event {
+	names := am.S{"Start", "PoolReady", "ForkWorker", "WorkerGone", "PoolStarting"}
+	mach := &verifSupMach{names: names}
+	mach.tx = &am.Transition{MachApi: mach, Mutation: &am.Mutation{Type: typ, Called: called}}
+	e := am.NewEvent(nil, mach)
+	e.Name = name
+	e.MachineId = "sup"
+	return e
 }
 
 // verifReadyWorkers replaces Supervisor.readyWorkers (which asks each worker's RPC mirror): the first
@@ -37,13 +64,23 @@ func VerifC15Gates() {
 	for i := 0; i < ready; i++ {
 		s.PoolPause++
 	}
+	// the package-level state names are built by reflection in init(), which the engine does not run
+	if vSymbolic() {
+		ssS = states.SupervisorStatesDef{PoolReady: "PoolReady", ForkWorker: "ForkWorker", WorkerGone: "WorkerGone",
+			PoolStarting: "PoolStarting"}
+	}
+	// PoolReady is withdrawn by an explicit Remove1(PoolReady) or through a relation (Add WorkerGone / PoolStarting)
+	exitEv := verifGateEvent("PoolReadyExit", am.MutationRemove, []int{1})
+	if vBool() {
+		exitEv = verifGateEvent("PoolReadyExit", am.MutationAdd, []int{3 + vInt(0, 1)})
+	}
 	vReach("gates")
-	vAssert("fork-refused-at-max", s.ForkWorkerEnter(nil) == (tracked < max))
+	vAssert("fork-refused-at-max", s.ForkWorkerEnter(verifGateEvent("ForkWorkerEnter", am.MutationAdd, []int{2})) == (tracked < max))
 	need := min
 	if max < need {
 		need = max
 	}
 	vAssert("min-capped-by-max", s.min() == need)
-	vAssert("pool-ready-granted-iff-enough-ready", s.PoolReadyEnter(nil) == (ready >= need))
-	vAssert("pool-ready-withdrawn-iff-too-few", s.PoolReadyExit(nil) == (ready < need))
+	vAssert("pool-ready-granted-iff-enough-ready", s.PoolReadyEnter(verifGateEvent("PoolReadyEnter", am.MutationAdd, []int{1})) == (ready >= need))
+	vAssert("pool-ready-withdrawn-iff-too-few", s.PoolReadyExit(exitEv) == (ready < need))
 }
